@@ -563,6 +563,12 @@ theorem epilogue_reports_only_the_release {s : GateProg.Shared} {t : GateProg.Ti
     (l'.pc = .dUnlock ∨ l'.pc = .dRec ∨ l'.pc = .flush ∨ l'.pc = .idle) :=
   GateProg.epilogue_tstep hpc hs
 
+/-- … and they never block and need no choice of the scheduler: once a handler has returned (or panicked), the release
+    is four enabled transitions away. -/
+theorem epilogue_never_blocks (s : GateProg.Shared) (t : GateProg.Tid) (l : GateProg.Loc) (ch : GateProg.Choice)
+    (hpc : l.pc = .dOut ∨ l.pc = .dUnlock ∨ l.pc = .dRec ∨ l.pc = .flush) : (GateProg.tstep s t l ch).isSome = true :=
+  GateProg.epilogue_enabled s t l ch hpc
+
 /-- A command that is queued in MULTI takes no keyspace step before EXEC: `execCommand` on a queuing connection appends
     the closure, reports nothing, touches neither execMu nor the transactions nor the watch registry, and returns into
     the deferred calls (which report only the release: `epilogue_reports_only_the_release`). -/
